@@ -11,6 +11,7 @@ import (
 
 // Frame is one (possibly inlined) function activation.
 type Frame struct {
+	condStore       int     // >0 while storing through a conditional location (no path-ending assumptions there)
 	pureRes         []*Term // results to use for the next contractCall (a function declared pure): no effects, ensures assumed of these terms
 	c               *Ctx
 	eng             *Engine
@@ -369,14 +370,21 @@ func (f *Frame) store(st *State, l Loc, v *Term) {
 		dom := c.heapGet(st, dn, ArrSort(SInt, ArrSort(ks, SBool)))
 		val := c.heapGet(st, vn, ArrSort(SInt, ArrSort(ks, vs)))
 		ln0 := c.heapGet(st, ln, ArrSort(SInt, SInt))
+		// an assignment to an entry of a nil map panics: only paths on which the map is non-nil continue
+		// (partial correctness, like every other panic)
+		if c.inQuant == 0 && f.condStore == 0 {
+			c.assume(st, Ne(l.ref, IntLit(0)))
+		}
 		had := Select(Select(dom, l.ref), l.key)
 		c.heapSet(st, ln, Store(ln0, l.ref, Ite(had, Select(ln0, l.ref), Add(Select(ln0, l.ref), IntLit(1)))))
 		c.heapSet(st, dn, Store(dom, l.ref, Store(Select(dom, l.ref), l.key, TTrue)))
 		c.heapSet(st, vn, Store(val, l.ref, Store(Select(val, l.ref), l.key, v)))
 	case LCond:
 		va, vb := f.load(st, l.a), f.load(st, l.b)
+		f.condStore++
 		f.store(st, l.a, Ite(l.cond, v, va))
 		f.store(st, l.b, Ite(l.cond, vb, v))
+		f.condStore--
 	case LTemp:
 		panic(unsupported{"assignment to non-addressable value"})
 	default:
